@@ -309,7 +309,7 @@ impl Lex {
 pub fn token_filename(sources: &[(Xstr, Xstr)], token: &Xsubstr) -> Option<Xstr> {
     sources
         .iter()
-        .find(|x| &x.1 == token.parent())
+        .find(|x| Xstr::ptr_eq(&x.1, token.parent()))
         .map(|x| x.0.clone())
 }
 
